@@ -18,6 +18,14 @@ func (w *binaryWriter) w(x interface{}) {
 		return
 	}
 
+	// int and uint have no fixed size for encoding/binary: they are written as the 64 bit types their numpy dtype (i8/u8) names
+	switch xt := x.(type) {
+	case int:
+		x = int64(xt)
+	case uint:
+		x = uint64(xt)
+	}
+
 	w.err = binary.Write(w, binary.LittleEndian, x)
 	w.seq++
 }
@@ -100,6 +108,12 @@ func (t *Dense) WriteNpy(w io.Writer) (err error) {
 			} else{
 				bw.w(t.Get(i))
 			}
+		}
+	} else if t.RequiresIterator() || t.o.IsColMajor() {
+		// the file is declared C-ordered with the logical shape: the elements are written in logical row-major order
+		it := newFlatIterator(&t.AP)
+		for i, err := it.Next(); err == nil; i, err = it.Next() {
+			bw.w(t.Get(i))
 		}
 	} else {
 		for i := 0; i < t.len(); i++ {
@@ -327,11 +341,27 @@ func (t *Dense) ReadNpy(r io.Reader) (err error){
 	t.makeArray(size)
 
 	switch t.t.Kind() {
+	case reflect.Bool:
+		data := t.Bools()
+		for i := 0; i < size; i++ {
+			br.Read(&data[i])
+		}
 	{{range .Kinds -}}
 	case reflect.{{reflectKind .}}:
 		data := t.{{sliceOf .}}
 		for i := 0; i < size; i++ {
+			{{if eq .String "int" -}}
+			// encoding/binary cannot read into an int: go through the 64 bit type the file holds
+			var v int64
+			br.Read(&v)
+			data[i] = int(v)
+			{{else if eq .String "uint" -}}
+			var v uint64
+			br.Read(&v)
+			data[i] = uint(v)
+			{{else -}}
 			br.Read(&data[i])
+			{{end -}}
 		}
 	{{end -}}
 	}
